@@ -257,3 +257,89 @@ Definition oracle (snap evs : list event) (tr : list obs) : bool :=
   | o0 :: tr' => let tv := tor_view snap in check_obs tv o0 && oracle_from tv evs tr'
   | [] => false
   end.
+
+(* ---------------------------------------------------------------------------------------
+   The application asks Tor to build circuits: build_circuit(routers) writes EXTENDCIRCUIT 0 [fp,fp,..]; Tor
+   answers the oldest outstanding request with "250 EXTENDED id" (the circuit exists now) or with a 5xx.
+   The answer and the CIRC events of that circuit may arrive in either order.  The answer is Tor's
+   statement "id EXTENDED" about the circuit: it carries no keywords and no path (stated before any hop was
+   reported), so it is read like the event CIRC id EXTENDED without arguments.
+   Observed in addition to TorState: what a stimulus made the library write / complete:
+     (0, n) (3, r1) .. (3, rn)   EXTENDCIRCUIT 0 with the relays r1..rn was written
+     (1, oid) (4, k)             the k-th build_circuit() call completed with the Circuit object oid
+     (2, k)                      the k-th build_circuit() call failed *)
+Inductive stim := SEv (e : event) | SBuild (rs : list N) | SExtended (id : N) | SBuildErr.
+
+Definition ext_event (id : N) : event := ECirc id CExtended [] [].
+
+(* requested / still unanswered build_circuit() calls *)
+Record bstate := { b_req : N; b_pend : N }.
+Definition b0 : bstate := {| b_req := 0; b_pend := 0 |}.
+
+Definition stim_legal (tv : tview) (b : bstate) (s : stim) : bool :=
+  match s with
+  | SEv e => ev_legal tv e
+  | SBuild rs => true
+  | SExtended id =>       (* answers a request; names an id Tor has (no hop reported yet) or is about to announce *)
+      (0 <? b_pend b) && ev_legal tv (ext_event id) &&
+      match kfind tc_id id (tcs tv) with Some o => match tc_path o with [] => true | _ => false end | None => true end
+  | SBuildErr => 0 <? b_pend b
+  end.
+
+Definition stim_view (tv : tview) (s : stim) : tview :=
+  match s with
+  | SEv e => tor_step tv e
+  | SExtended id => tor_step tv (ext_event id)
+  | _ => tv
+  end.
+
+Definition stim_b (b : bstate) (s : stim) : bstate :=
+  match s with
+  | SEv _ => b
+  | SBuild _ => {| b_req := b_req b + 1; b_pend := b_pend b + 1 |}
+  | _ => {| b_req := b_req b; b_pend := b_pend b - 1 |}
+  end.
+
+Fixpoint legal2_from (tv : tview) (b : bstate) (l : list stim) : bool :=
+  match l with
+  | [] => true
+  | s :: t => stim_legal tv b s && legal2_from (stim_view tv s) (stim_b b s) t
+  end.
+Definition legal2 (snap : list event) (l : list stim) : bool :=
+  snapshot_shaped snap && legal_from tv0 snap && legal2_from (tor_view snap) b0 l.
+
+Definition extra := list (N * N).
+Definition extra_eqb := @list_eqb (N * N) pair_eqb.
+
+(* [prev]: id -> object of the observation before this stimulus *)
+Definition extra_ok (prev : list (N * N)) (b : bstate) (s : stim) (o : obs) (ex : extra) : bool :=
+  match s with
+  | SEv _ => extra_eqb ex []
+  | SBuild rs => extra_eqb ex ((0, N.of_nat (length rs)) :: map (fun r => (3, r)) rs)
+  | SExtended id =>
+      (* the call completes with the object listed under id, which is the one that was listed before if any *)
+      match kfind co_id id (o_circs o) with
+      | Some c => extra_eqb ex [(1, co_oid c); (4, b_req b - b_pend b)] &&
+                  match kfind fst id prev with Some p => snd p =? co_oid c | None => true end
+      | None => false
+      end
+  | SBuildErr => extra_eqb ex [(2, b_req b - b_pend b)]
+  end.
+
+Definition listing (o : obs) : list (N * N) := map (fun c => (co_id c, co_oid c)) (o_circs o).
+
+Fixpoint oracle2_from (tv : tview) (b : bstate) (prev : list (N * N)) (l : list stim) (tr : list (obs * extra)) : bool :=
+  match l, tr with
+  | [], [] => true
+  | s :: l', (o, ex) :: tr' =>
+      let tv' := stim_view tv s in
+      check_obs tv' o && extra_ok prev b s o ex && oracle2_from tv' (stim_b b s) (listing o) l' tr'
+  | _, _ => false
+  end.
+
+Definition oracle2 (snap : list event) (l : list stim) (tr : list (obs * extra)) : bool :=
+  match tr with
+  | (o0, ex0) :: tr' => let tv := tor_view snap in
+                        check_obs tv o0 && extra_eqb ex0 [] && oracle2_from tv b0 (listing o0) l tr'
+  | [] => false
+  end.
